@@ -171,12 +171,12 @@ def liouville_predicates(Us, b, L):
     return bad
 
 
-def verdict_class(flag, expected, D, A):
+def verdict_class(flag, expected, D, thr):
     """None if the verdict is the expected one, otherwise the signature of the failure class"""
     if expected is None or bool(flag) == expected:
         return None
     nrm = max(1.0, np.abs(D).max())
-    if expected and D.min() >= -1e-11 * nrm:
+    if expected and -1e-11 * nrm <= D.min() < -thr:
         # mathematically PSD, eigenvalue noise of relative size eps exceeds the absolute default tolerance
         return 'c15-verdict-abs-tolerance'
     return 'c15-verdict-wrong'
@@ -504,7 +504,7 @@ def run(ctx):
         if bool(so.liouville_is_CP(S, b, atol=atol)) != bool(cp) or bool(so.liouville_is_cCP(S, b, atol=atol)) != bool(ccp):
             failures.append(fail('prop', 'return_eig', 'c15-return-eig', 'verdict depends on return_eig', inp))
         for nm, flag, D, A in (('CP', cp, D1, choi), ('cCP', ccp, D2, None)):
-            sig = verdict_class(flag, expected[nm], D, A)
+            sig = verdict_class(flag, expected[nm], D, (atol or b._atol))
             if sig:
                 failures.append(fail('prop', '%s verdict (%s)' % (nm, mcls), sig,
                                      'liouville_is_%s = %s for a %s map (expected %s); min eigenvalue %.3g, threshold %.3g'
@@ -609,7 +609,7 @@ def replay(ctx, rep):
         cp, (D1, _) = so.liouville_is_CP(S, b, return_eig=True, atol=atol)
         ccp, (D2, _) = so.liouville_is_cCP(S, b, return_eig=True, atol=atol)
         for nm, flag, D, e in (('CP', cp, D1, exp[0]), ('cCP', ccp, D2, exp[1])):
-            sig = verdict_class(flag, e, D, None)
+            sig = verdict_class(flag, e, D, (atol or b._atol))
             if sig:
                 bad.append((sig, '%s verdict %s, expected %s, min eigenvalue %.3g' % (nm, bool(flag), e, D.min())))
         return (not bad), ('replay reproduces: %s' % bad if bad else 'replay: predicates hold on this input')
@@ -653,7 +653,7 @@ def search(ctx, broken):
             cp, (D1, _) = so.liouville_is_CP(S, b, return_eig=True)
             ccp, (D2, _) = so.liouville_is_cCP(S, b, return_eig=True)
             for nm, flag, D in (('CP', cp, D1), ('cCP', ccp, D2)):
-                sig = verdict_class(flag, expected[nm], D, None)
+                sig = verdict_class(flag, expected[nm], D, b._atol)
                 if sig == 'c15-verdict-wrong':
                     bad.append((nm + ' verdict', '%s verdict %s for a %s map' % (nm, bool(flag), mcls)))
             if bad:
